@@ -62,6 +62,10 @@ def gen_stallwatch(r, tier):
             ops.append("w.poll")
         # the fan stalls: the harness plays the device (rpm 0 unless the register exceeds the threshold)
         ops.append("w.dev rpm=0")
+        if kind == "hwmon" and r.chance(0.2):
+            # the driver rejects every write of the control mode from now on (manual mode cannot be re-asserted): the PWM is
+            # still writable and the stalled fan still has to be pushed (seed C10j: the cycle gave up before looking at the RPM)
+            ops.append("w.dev modewrite=refused")
         if kind == "cmd" and r.chance(0.4):
             # the fan's PWM read-out starts failing as well (its getPwm command exits non-zero): the RPM still has to be
             # polled and the stall noticed (seed C10i: the measurement gave up before reading the RPM)
